@@ -8,8 +8,14 @@ SIZE_SOURCES = ("::serialized_size", "::serialized_size_static", "::len", "::cou
                 "::storage_len", "::key_count", "::min", "::saturating_sub", "::saturating_add", "::size")
 
 
+# size_of::<T>() of the fixed-width primitives (usize/isize deliberately absent: platform dependent)
+PRIM_SIZES = {"u8": 1, "i8": 1, "bool": 1, "u16": 2, "i16": 2, "u32": 4, "i32": 4, "f32": 4, "u64": 8, "i64": 8, "f64": 8,
+              "u128": 16, "i128": 16}
+
+
 def const_of(b, op, depth=0):
-    """Constant value of an operand, chasing single-definition copies/casts; None if not constant."""
+    """Constant value of an operand, chasing single-definition copies/casts and `size_of::<primitive>()`;
+    None if not constant."""
     k = cfg.op_const(op)
     if k is not None:
         return k.get("v")
@@ -19,6 +25,10 @@ def const_of(b, op, depth=0):
     ds = cfg.defs(b).get(pl[0], [])
     if len(ds) == 1 and ds[0][0] == "assign" and ds[0][2]["k"] in ("use", "cast"):
         return const_of(b, ds[0][2]["o"], depth + 1)
+    if len(ds) == 1 and ds[0][0] == "call" and cfg.callee_decl(ds[0][2]) == "std::mem::size_of" and not ds[0][2]["a"]:
+        full = cfg.callee_full(ds[0][2]) or ""
+        if full.startswith("std::mem::size_of::<") and full.endswith(">"):
+            return PRIM_SIZES.get(full[len("std::mem::size_of::<"):-1])
     return None
 
 
@@ -113,13 +123,63 @@ def range_parts(b, op):
 
 
 def array_len(ty):
-    if ty.startswith("&"):
-        ty = ty.lstrip("&").replace("mut ", "").strip()
-    if ty.startswith("[") and ";" in ty:
-        try:
-            return int(ty.rsplit(";", 1)[1].strip(" ]"))
-        except ValueError:
-            return None
+    """N of `[T; N]` (possibly behind references); None for slices (`[[u8; 8]]`), vectors and everything else."""
+    ty = ty.strip()
+    while ty.startswith("&"):
+        ty = ty[1:].strip()
+        if ty.startswith("mut "):
+            ty = ty[4:].strip()
+    if not (ty.startswith("[") and ty.endswith("]")):
+        return None
+    depth = 0
+    semi = None
+    for i, ch in enumerate(ty):
+        if ch in "[(<":
+            depth += 1
+        elif ch in "])>":
+            depth -= 1
+            if depth == 0 and i != len(ty) - 1:
+                return None            # the leading `[` closes before the end: not one array type
+        elif ch == ";" and depth == 1:
+            semi = i
+    if semi is None:
+        return None
+    try:
+        return int(ty[semi + 1:-1].strip())
+    except ValueError:
+        return None
+
+
+def fixed_len(b, op, depth=0):
+    """Constant length of the slice an operand refers to, else None: the operand is (a reference / unsizing cast /
+    reborrow of) a `[T; N]` value -> N, or the result of `x[a..b]` / `x[..b]` with constant bounds -> b - a / b
+    (whether that slicing itself is in range is a separate `index` site)."""
+    pl = cfg.op_place(op)
+    if pl is None or depth > 8 or any(e != "*" for e in pl[1:]):
+        return None
+    n = array_len(b.local_ty(pl[0]))
+    if n is not None:
+        return n
+    ds = cfg.defs(b).get(pl[0], [])
+    if len(ds) != 1:
+        return None
+    d = ds[0]
+    if d[0] == "assign":
+        r = d[2]
+        if r["k"] in ("use", "cast"):
+            return fixed_len(b, r["o"], depth + 1)
+        if r["k"] == "ref" and all(e == "*" for e in r["p"][1:]):
+            return fixed_len(b, {"cp": [r["p"][0]]}, depth + 1)
+        return None
+    if d[0] == "call" and cfg.callee_decl(d[2]) in panics.INDEX_DECLS and len(d[2]["a"]) > 1:
+        rp = range_parts(b, d[2]["a"][1])
+        if rp:
+            vals = [const_of(b, o) for o in rp[1]]
+            if all(v is not None for v in vals):
+                if rp[0] == "Range" and len(vals) == 2 and vals[0] <= vals[1]:
+                    return vals[1] - vals[0]
+                if rp[0] == "RangeTo" and len(vals) == 1:
+                    return vals[0]
     return None
 
 
@@ -137,6 +197,13 @@ def classify(fa, b, s):
             g = common.guarded_by(b, s["bb"], len_guards(b) + decode_guards(b))
             if g:
                 return "constant index %d after a %s" % (iv, g)
+        return None
+    if kind in ("copy_from_slice", "clone_from_slice"):
+        # panics iff the two lengths differ: both sides have the same compile-time length
+        if len(t["a"]) == 2:
+            nd, ns = fixed_len(b, t["a"][0]), fixed_len(b, t["a"][1])
+            if nd is not None and nd == ns:
+                return "destination and source both have the constant length %d" % nd
         return None
     if kind in ("DivisionByZero", "RemainderByZero"):
         c = cfg.op_place(t["c"])
@@ -184,7 +251,8 @@ def classify(fa, b, s):
         n_arr = array_len(recv_ty)
         if n_arr is not None and rp:
             vals = [const_of(b, o) for o in rp[1]]
-            if all(v is not None and v <= n_arr for v in vals):
+            if rp[0] in ("Range", "RangeTo", "RangeFrom") and all(v is not None and v <= n_arr for v in vals) and \
+                    vals == sorted(vals):
                 return "constant range %s into a fixed-size array of %d" % (vals, n_arr)
         if n_arr is not None and rp is None and len(t["a"]) > 1:
             v = const_of(b, t["a"][1])
@@ -324,3 +392,135 @@ def recursion_rule(ctx, rule, seen, cg, depth_guards=()):
                    n.split(" as ")[0].lstrip("<").split("::")[-1] for n in names[:5]),
                nodes[comp[0]].where, key="%s|%s|cycle|%s" % (ctx.pid, rule, names[0]))
     return comps
+
+
+# ---------------------------------------------------------------------------------------------------------------
+# Requirement helpers for the frozen JUSTIFIED tables: small structural checks `req(fa, body, site) -> bool` that
+# must keep holding for a justification to stay valid (the guard / shape the reason relies on).
+
+def _len_locals(b, suffixes=("::len",)):
+    return cfg.derived_locals(b, [tt["d"][0] for i, tt in cfg.calls(b) if (cfg.callee(tt) or "").endswith(suffixes) or
+                                  (cfg.callee_decl(tt) or "").endswith(suffixes)])
+
+
+def _root(b, op):
+    o = cfg.op_origin(b, op)
+    return o[0] if o else None
+
+
+def _flows_from(b, op, src_local, depth=0):
+    """`op` is a copy / cast chain (named snapshots `let x = y as T` included) of local `src_local`."""
+    pl = cfg.op_place(op)
+    if pl is None or depth > 8:
+        return False
+    if pl[0] == src_local:
+        return True
+    if len(pl) != 1:
+        return False
+    ds = cfg.defs(b).get(pl[0], [])
+    if len(ds) == 1 and ds[0][0] == "assign" and ds[0][2]["k"] in ("use", "cast"):
+        return _flows_from(b, ds[0][2]["o"], src_local, depth + 1)
+    return False
+
+
+def _call_result(b, op, suffixes, depth=0):
+    """The call terminator (callee ending with one of `suffixes`) whose result `op` is a copy / cast chain of."""
+    pl = cfg.op_place(op)
+    if pl is None or len(pl) != 1 or depth > 8:
+        return None
+    ds = cfg.defs(b).get(pl[0], [])
+    if len(ds) != 1:
+        return None
+    if ds[0][0] == "call":
+        t = ds[0][2]
+        if (cfg.callee(t) or "").endswith(suffixes) or (cfg.callee_decl(t) or "").endswith(suffixes):
+            return t
+        return None
+    if ds[0][0] == "assign" and ds[0][2]["k"] in ("use", "cast"):
+        return _call_result(b, ds[0][2]["o"], suffixes, depth + 1)
+    if ds[0][0] == "assign" and ds[0][2]["k"] == "ref" and all(e == "*" for e in ds[0][2]["p"][1:]):
+        return _call_result(b, {"cp": [ds[0][2]["p"][0]]}, suffixes, depth + 1)       # reborrow `&mut *x`
+    return None
+
+
+def is_const(v):
+    return lambda fa, b, s, o: const_of(b, o) == v
+
+
+def result_of(*suffixes):
+    return lambda fa, b, s, o: _call_result(b, o, tuple(suffixes)) is not None
+
+
+def rejected_before(op, lhs=None, rhs=None):
+    """The site is reachable only through the *false* edge of a comparison `op(lhs, rhs)` in the same body (a
+    reject-if-true guard). `lhs` / `rhs`: predicates `(fa, b, site, operand) -> bool` on the two operands."""
+    def req(fa, b, s):
+        def bin_pred(st, cb):
+            r = st["r"]
+            return cb is b and r["op"] == op and (lhs is None or lhs(fa, b, s, r["a"])) and \
+                (rhs is None or rhs(fa, b, s, r["b"]))
+        return common.guarded_by(b, s["bb"], common.reject_guards(fa, b, bin_pred=bin_pred)) is not None
+    return req
+
+
+def unwrap_of(*suffixes):
+    """The unwrapped value is directly the result of a call to one of the named functions."""
+    def req(fa, b, s):
+        t = b.blocks[s["bb"]]["term"]
+        return bool(t["a"]) and _call_result(b, t["a"][0], tuple(suffixes)) is not None
+    return req
+
+
+def const_index(value):
+    """`x[i]` with the constant index `value`."""
+    def req(fa, b, s):
+        t = b.blocks[s["bb"]]["term"]
+        return len(t["a"]) > 1 and const_of(b, t["a"][1]) == value
+    return req
+
+
+def any_of(*reqs):
+    return lambda fa, b, s: any(r(fa, b, s) for r in reqs)
+
+
+def all_of(*reqs):
+    return lambda fa, b, s: all(r(fa, b, s) for r in reqs)
+
+
+def after_len_test(fa, b, s):
+    """The site is reachable only through one edge of a comparison against a `len()`."""
+    return common.guarded_by(b, s["bb"], len_guards(b)) is not None
+
+
+def after_decode(fa, b, s):
+    """The site is reachable only through the Ok edge of a `deserialize(..)?`."""
+    return common.guarded_by(b, s["bb"], decode_guards(b)) is not None
+
+
+def grown_to_index(fa, b, s):
+    """`v[i]` preceded by `if v.len() <= i { v.resize(i + 1, ..) }`: the site is reachable only through that test and
+    every path from its true edge passes a `Vec::resize` whose new length is `i + 1`."""
+    t = b.blocks[s["bb"]]["term"]
+    if len(t["a"]) < 2:
+        return False
+    idx = _root(b, t["a"][1])
+    lens = _len_locals(b)
+    resizes = []
+    for i, tt in cfg.calls(b):
+        if cfg.callee_decl(tt) == "std::vec::Vec::resize" and len(tt["a"]) > 1:
+            o = cfg.op_origin(b, tt["a"][1])
+            for d in (cfg.defs(b).get(o[0], []) if o else []):
+                if d[0] == "assign" and d[2]["k"] == "bin" and d[2]["op"].startswith("Add") and \
+                        _root(b, d[2]["a"]) == idx and const_of(b, d[2]["b"]) == 1:
+                    resizes.append(i)
+    if idx is None or not resizes:
+        return False
+    for bi, st in cfg.assigns(b):
+        r = st["r"]
+        if r["k"] == "bin" and r["op"] == "Le" and len(st["l"]) == 1 and _root(b, r["a"]) in lens and _root(b, r["b"]) == idx:
+            for sw in cfg.bool_switches(b, cfg.derived_locals(b, [st["l"][0]])):
+                te, fe = sw["true_edge"], sw["false_edge"]
+                if cfg.find_path(b, [0], [s["bb"]], removed_edges=[te, fe]) is None and \
+                        cfg.must_pass(b, [te[1]], resizes, [s["bb"]])[0]:
+                    return True
+    return False
